@@ -444,7 +444,22 @@ func c05Base(c *Ctx, p *Prog) {
 	if indexForm {
 		buf, gmp = c05HalvesByIndex(parts, split)
 	}
-	for _, lp := range naturalLoops(parts) {
+	// the segment loop: in Parts itself, or in a helper of the package that Parts hands the name (without -N) to
+	segFn, segBuf := parts, buf
+	if len(naturalLoops(parts)) == 0 && buf != nil {
+		eachInstr(parts, func(_ *ssa.BasicBlock, in ssa.Instruction) {
+			if call, ok := in.(*ssa.Call); ok {
+				if h := call.Call.StaticCallee(); h != nil && h.Pkg == parts.Pkg && h.Blocks != nil && len(naturalLoops(h)) > 0 {
+					for i, a := range call.Call.Args {
+						if a == buf && i < len(h.Params) {
+							segFn, segBuf = h, h.Params[i]
+						}
+					}
+				}
+			}
+		})
+	}
+	for _, lp := range naturalLoops(segFn) {
 		var prev *ssa.Phi
 		for _, in := range lp.Header.Instrs {
 			if phi, ok := in.(*ssa.Phi); ok && isInteger(phi.Type()) && phi.Comment == "prev" {
@@ -457,7 +472,7 @@ func c05Base(c *Ctx, p *Prog) {
 		// inside: slice buf[prev:i] appended, then prev = i
 		for b := range lp.Blocks {
 			for _, in := range b.Instrs {
-				if sl, ok := in.(*ssa.Slice); ok && sl.X == buf && sl.Low == prev && sl.High != nil {
+				if sl, ok := in.(*ssa.Slice); ok && sl.X == segBuf && sl.Low == prev && sl.High != nil {
 					// the new prev on this path equals High
 					for i, e := range prev.Edges {
 						if e == sl.High && lp.Blocks[lp.Header.Preds[i]] {
@@ -478,8 +493,8 @@ func c05Base(c *Ctx, p *Prog) {
 			}
 		}
 		// after the loop: buf[prev:]
-		eachInstr(parts, func(b *ssa.BasicBlock, in ssa.Instruction) {
-			if sl, ok := in.(*ssa.Slice); ok && !lp.Blocks[b] && sl.X == buf && sl.Low == prev && sl.High == nil {
+		eachInstr(segFn, func(b *ssa.BasicBlock, in ssa.Instruction) {
+			if sl, ok := in.(*ssa.Slice); ok && !lp.Blocks[b] && sl.X == segBuf && sl.Low == prev && sl.High == nil {
 				okTail = true
 			}
 		})
